@@ -31,8 +31,13 @@ LEVEL_TEXT = ('static analysis: (D1) every public estimator of cnvlib/descriptiv
               'precondition is violated and one value per input comes back; (D6) every estimator interpreted through its decorator on 11 literal '
               'vectors (majority tied, outlier, symmetric, constant, two and twelve values) with exact rational arithmetic equals an independent '
               "transcription of its formula (biweight location / midvariance, MAD, IQR, Qn with the docstring's factors for n < 400, gapper, "
-              "weighted median / MAD / std). Does not decide numerical values on general data beyond those vectors, Qn's factor for n >= 400, "
-              'range / finiteness of smoother outputs.')
+              'weighted median / MAD / std). (D3e) rolling_median / rolling_quantile / unweighted kaiser interpreted on literal signals of 2..9 '
+              'values (constant, step, spike, zigzag; widths as a fraction, an integer, wider than the signal) with a stated model of '
+              'Series.rolling(center=True) and np.convolve: one value per input, a constant signal unchanged, values inside the input range; '
+              '_pad_array mirrors exactly `wing` values per side (this replaces matching the text of the [wing:-wing] slices). The typing of D4 '
+              'also carries a rounding taint -- a value that went through a data-dependent division may not enter an equality-within-epsilon test'
+              ' (exact ties of equal weights would be missed) -- and rejects np.isclose on location-type or scale-dependent values. Does not '
+              "decide numerical values on general data beyond those vectors, Qn's factor for n >= 400, finiteness of weighted smoother outputs.")
 TECHNIQUE = ('decorator-contract and tolerance lints; structured-dominance pad/unpad pairing; abstract interpretation with a translation/scale '
              'type domain and a uniform-vector domain; exact rational evaluation on literal vectors against independent formula transcriptions; '
              "library-precondition contracts for scipy's savgol")
